@@ -19,6 +19,7 @@ type VNet struct {
 	now    time.Duration
 	eps    [2]*VEnd
 	flight []*Dgram
+	ready  []*Dgram // delayed datagrams whose time has come: handed over one per controller step
 	held   []*Dgram
 	timers []*vtimer
 
@@ -30,6 +31,7 @@ type VNet struct {
 	TieFlip bool
 
 	Log        []DgramLog
+	Events     []VEvent // every send, network action, read-deadline expiry and harness note, in order
 	sent       [2]int
 	Expiries   int // read deadlines that expired (retransmission timeouts)
 	TimerFires int
@@ -51,6 +53,23 @@ type DgramLog struct {
 	Len  int
 	At   time.Duration
 	Act  string
+}
+
+// VEvent kinds: "send" (Side sent datagram Idx), "deliver" / "dup" / "late" / "drop" / "hold" (network
+// action on datagram Idx sent by Side), "expire" (Side's read deadline expired), or a harness note.
+type VEvent struct {
+	At   time.Duration
+	Kind string
+	Side int
+	Idx  int
+	Data []byte // send only
+}
+
+// Note records a harness-level event (e.g. "handshake done") in the event log.
+func (n *VNet) Note(side int, kind string) {
+	n.mu.Lock()
+	n.Events = append(n.Events, VEvent{At: n.now, Kind: kind, Side: side})
+	n.mu.Unlock()
 }
 
 type Action struct {
@@ -117,6 +136,7 @@ func (e *VEnd) ReadFrom(p []byte) (int, net.Addr, error) {
 		}
 		if e.deadline >= 0 && n.now >= e.deadline {
 			n.Expiries++
+			n.Events = append(n.Events, VEvent{At: n.now, Kind: "expire", Side: e.id})
 			return 0, nil, timeoutErr{}
 		}
 		e.blocked = true
@@ -137,6 +157,7 @@ func (e *VEnd) WriteTo(p []byte, addr net.Addr) (int, error) {
 	n.sent[e.id]++
 	e.Sizes = append(e.Sizes, len(p))
 	n.flight = append(n.flight, d)
+	n.Events = append(n.Events, VEvent{At: n.now, Kind: "send", Side: e.id, Idx: d.Idx, Data: d.Data})
 	n.cond.Broadcast()
 	return len(p), nil
 }
@@ -265,6 +286,7 @@ func (n *VNet) deliverLocked(d *Dgram, act string) {
 		n.eps[to].inbox = append(n.eps[to].inbox, o)
 	}
 	n.Log = append(n.Log, DgramLog{d.From, d.Idx, len(d.Data), n.now, act})
+	n.Events = append(n.Events, VEvent{At: n.now, Kind: act, Side: d.From, Idx: d.Idx})
 }
 
 // Run drives the network until both programs are done (or nothing can happen any more).
@@ -278,6 +300,13 @@ func (n *VNet) Run() {
 		if n.allDone() && len(n.flight) == 0 {
 			return
 		}
+		if len(n.ready) > 0 { // one delayed datagram per step, so that only one endpoint runs at a time
+			d := n.ready[0]
+			n.ready = n.ready[1:]
+			n.deliverLocked(d, "late")
+			n.cond.Broadcast()
+			continue
+		}
 		if len(n.flight) > 0 {
 			d := n.flight[0]
 			n.flight = n.flight[1:]
@@ -288,6 +317,7 @@ func (n *VNet) Run() {
 			switch act.Kind {
 			case "drop":
 				n.Log = append(n.Log, DgramLog{d.From, d.Idx, len(d.Data), n.now, "drop"})
+				n.Events = append(n.Events, VEvent{At: n.now, Kind: "drop", Side: d.From, Idx: d.Idx})
 			case "dup":
 				n.deliverLocked(d, "deliver")
 				n.deliverLocked(d, "dup")
@@ -295,6 +325,7 @@ func (n *VNet) Run() {
 				d.release = n.now + act.Delay
 				n.held = append(n.held, d)
 				n.Log = append(n.Log, DgramLog{d.From, d.Idx, len(d.Data), n.now, "hold"})
+				n.Events = append(n.Events, VEvent{At: n.now, Kind: "hold", Side: d.From, Idx: d.Idx})
 			default:
 				n.deliverLocked(d, "deliver")
 			}
@@ -343,7 +374,7 @@ func (n *VNet) Run() {
 		sort.SliceStable(n.held, func(i, j int) bool { return n.held[i].release < n.held[j].release })
 		for _, h := range n.held {
 			if h.release <= n.now {
-				n.deliverLocked(h, "late")
+				n.ready = append(n.ready, h)
 			} else {
 				keep = append(keep, h)
 			}
